@@ -129,6 +129,11 @@ impl<T: High + Low + Close + Volume> Next<&T> for MoneyFlowIndex {
         }
         self.previous_typical_price = tp;
 
+        if self.total_positive_money_flow + self.total_negative_money_flow == 0.0 {
+            // No money flow in the window (zero volume or unchanged typical price): avoid 0/0
+            return 50.0;
+        }
+
         self.total_positive_money_flow
             / (self.total_positive_money_flow + self.total_negative_money_flow)
             * 100.0
